@@ -55,6 +55,65 @@ def limited_replay(src, mem_gib=3, timeout=25, profile='release'):
     return dict(outcome='error', detail=o.get('error', '')[:160])
 
 
+KF_INDEX_STORE = 'C06/JsObject::set_property/array-index-store-unbounded-resize'
+
+
+def check_index_store(rep, cross):
+    """`a[i] = v` and `a.length = n` on an array reach JsObject::set_property, which grows the dense element vector to i + 1 (or n)
+    elements: the size handed to Vec::resize must stay within what a process can allocate, for every index / length"""
+    ex = common.executor(unwind=3)
+    ex.auto_havoc = True
+
+    def h_resize(e, s, c):
+        s.event('alloc', 'Vec::resize', c.args[1].e)
+        e.havoc_used.add('Vec::resize (the requested length is recorded)')
+        return e.ret(s, c, UNIT)
+    ex.overrides.insert(0, (re.compile(r'^Vec::resize$'), h_resize))
+    fn = common.fn_name(ex, 'JsObject', 'set_property')
+    st = State()
+    idx = z3.BitVec('store_index', 32)
+    key = EnumV('PropertyKey', ex.variant_index('PropertyKey', 'Index'), {ex.variant_index('PropertyKey', 'Index'): {0: Int(idx, False)}})
+    elen = z3.BitVec('elements_len', 64)
+    st.assume(z3.ULE(elen, 1 << 20))
+    O = {n: i for i, n in enumerate(ex.src.structs['JsObject'])}
+    arr_v = ex.variant_index('ExoticObject', 'Array')
+    obj = st.alloc(Agg('struct', 'JsObject', {O['exotic']: EnumV('ExoticObject', arr_v, {arr_v: {0: AbsVec(elen, 'elements', 'JsValue')}})}, lazy=True))
+    ex.call_function(st, fn, [Ref(obj), key, ex.fresh(st, 'JsValue', '$stored')])
+    ends = ex.run(st, max_paths=3000)
+    worst = None
+    n = 0
+    for e in ends:
+        if e.status not in ('return', 'bound', 'panic'):
+            rep.inconc('JsObject::set_property: %s %s' % (e.status, e.detail[:140]))
+            continue
+        n += 1
+        for ev in e.st.events:
+            if ev[0] != 'alloc':
+                continue
+            sz = ev[2]
+            wide = z3.ZeroExt(64 - sz.size(), sz) if sz.size() < 64 else sz
+            r, m = ex.check_sat_pc(e.st.pc, [z3.UGT(wide, LIMIT)])
+            if r == 'sat' and worst is None:
+                worst = m
+            elif r == 'unsat':
+                cross.append(('set_property resize <= 2^31', list(e.st.pc) + [z3.UGT(wide, LIMIT)], 'unsat'))
+    what = 'JsObject::set_property on an array: the length requested from Vec::resize for an index store stays <= 2^31'
+    rep.obligation(what, 'sat' if worst is not None else 'unsat', 'every u32 index, element vector of up to 2^20 elements, %d paths' % n, 0.0)
+    if worst is not None and not rep.seen(KF_INDEX_STORE):
+        iv = worst.eval(idx, model_completion=True).as_long()
+        src = 'var a = []; a[%d] = 1; a.length' % iv
+        o = limited_replay(src)
+        rep.validated += 1
+        if o['outcome'] in ('abort', 'panic', 'timeout'):
+            p = rep.write_replay('index-store', {'cmd': 'eval', 'src': src, 'memory_limit_gib': 3, 'observed': o})
+            rep.violation(KF_INDEX_STORE, '%s under a 3 GiB address-space limit -> %s (%s): an index store grows the dense element vector to index + 1' % (src, o['outcome'], o['detail']), p)
+        else:
+            rep.inconc('%s: solver index %d does not abort the real build: %r' % (what, iv, o))
+    rep.vacuity.append('JsObject::set_property(Index): %d paths' % n)
+    rep.sample({'kernel': 'JsObject::set_property array index store', 'paths': n})
+    rep.absorb(ex)
+
+
 def run(rep):
     rep.bounds = dict(size_argument='every f64', receiver='arbitrary short string / array', limit='2^31 bytes or elements')
     rep.assumptions = ['every callee other than the size arithmetic is abstracted (arbitrary result); receiver lengths are arbitrary but small (<= 4 bytes)',
@@ -156,6 +215,7 @@ def run(rep):
         rep.vacuity.append('%s: %d non-error paths examined' % (fn_name, nret))
         rep.sample({'kernel': fn_name, 'non_error_paths': nret, 'verdict': 'size can exceed 2^31' if worst else 'bounded or refused'})
         rep.absorb(ex)
+    check_index_store(rep, cross)
     rep.cross = driver.cross_check(cross, 300, 'ALL', rep.tier, rep.seed)
     rep.extra['cross_checked_obligations'] = len(cross)
 
